@@ -144,6 +144,59 @@ fn partial_dsym_body<const N: usize, const D1: usize, const PART: u8>(reach: boo
     std::mem::forget(ds);
 }
 
+/// a PartialDSym in which some 2-orbits have no branching number yet (v = 0): `is_complete` must say so,
+/// v / m report the unassigned orbits as 0 and the assigned ones exactly
+fn partial_unassigned_body<const N: usize, const D1: usize>(reach: bool) {
+    let o = sym_ops::<N, D1>(true);
+    assume(o.commuting());
+    let mut vs = [[1usize; N]; D1];
+    let mut i = 0;
+    while i + 1 < D1 {
+        let mut d = 0;
+        while d < N {
+            let v: usize = vin();
+            assume(v <= 3);
+            vs[i][d] = v;
+            d += 1;
+        }
+        i += 1;
+    }
+    let mut i = 0;
+    while i + 1 < D1 {
+        let mut d = 1;
+        while d <= N {
+            assume(vs[i][o.get(i, d) - 1] == vs[i][d - 1]);
+            assume(vs[i][o.get(i + 1, d) - 1] == vs[i][d - 1]);
+            d += 1;
+        }
+        i += 1;
+    }
+    let mut ds = PartialDSym::from(build_simple(&o));
+    let mut all_assigned = true;
+    let mut i = 0;
+    while i + 1 < D1 {
+        let mut d = 1;
+        while d <= N {
+            if vs[i][d - 1] != 0 {
+                ds.set_v(i, d, vs[i][d - 1]);
+            } else {
+                all_assigned = false;
+            }
+            d += 1;
+        }
+        i += 1;
+    }
+    assert!(ds.is_complete() == all_assigned, "C02.dsym.is_complete_needs_every_v");
+    let i: usize = vin();
+    let d: usize = vin();
+    assume(i < D1 - 1 && 1 <= d && d <= N);
+    assert!(ds.v(i, i + 1, d) == Some(vs[i][d - 1]), "C02.dsym.v_unassigned_is_zero");
+    assert!(ds.v(i + 1, i, d) == Some(vs[i][d - 1]), "C02.dsym.v_unassigned_symmetric");
+    assert!(ds.m(i, i + 1, d) == Some(vs[i][d - 1] * o.orbit_len(i, i + 1, d)), "C02.dsym.m_unassigned");
+    reach_end(reach);
+    std::mem::forget(ds);
+}
+
 fn simple_dsym_body<const N: usize, const D1: usize, const PART: u8>(reach: bool) {
     let o = sym_ops::<N, D1>(true);
     assume(o.commuting());
@@ -242,6 +295,8 @@ macro_rules! proofs {
 // @harness c02_partial_dsym_n2d2_values_reach tier=quick unwind=5 block=64 mem=6 timeout=1200 twin
 // @harness c02_partial_dsym_n2d2_symmetry tier=quick unwind=5 block=64 mem=7 timeout=1200
 // @harness c02_partial_dsym_n2d2_orbits tier=quick unwind=5 block=64 mem=7 timeout=1294
+// @harness c02_partial_dsym_n2d2_unassigned tier=quick unwind=5 block=64 mem=8 timeout=1500
+// @harness c02_partial_dsym_n2d2_unassigned_reach tier=quick unwind=5 block=64 mem=8 timeout=1500 twin
 // @harness c02_simple_dsym_n2d2_values tier=quick unwind=5 block=64 mem=6 timeout=1200
 // @harness c02_simple_dsym_n2d2_values_reach tier=quick unwind=5 block=64 mem=6 timeout=1200 twin
 // @harness c02_simple_dsym_n2d2_symmetry tier=quick unwind=5 block=64 mem=7 timeout=1200
@@ -268,6 +323,8 @@ proofs! {
     c02_partial_dsym_n2d2_values_reach => partial_dsym_body::<2, 3, 0>(true);
     c02_partial_dsym_n2d2_symmetry => partial_dsym_body::<2, 3, 1>(false);
     c02_partial_dsym_n2d2_orbits => partial_dsym_body::<2, 3, 2>(false);
+    c02_partial_dsym_n2d2_unassigned => partial_unassigned_body::<2, 3>(false);
+    c02_partial_dsym_n2d2_unassigned_reach => partial_unassigned_body::<2, 3>(true);
     c02_simple_dsym_n2d2_values => simple_dsym_body::<2, 3, 0>(false);
     c02_simple_dsym_n2d2_values_reach => simple_dsym_body::<2, 3, 0>(true);
     c02_simple_dsym_n2d2_symmetry => simple_dsym_body::<2, 3, 1>(false);
